@@ -43,7 +43,26 @@ def main(argv=None):
         return 2
 
     try:
-        bootstrap.boot(need_bridgepoint=getattr(mod, 'NEEDS_BRIDGEPOINT', True))
+        try:
+            bootstrap.boot(need_bridgepoint=getattr(mod, 'NEEDS_BRIDGEPOINT', True))
+        except SystemExit:
+            raise
+        except Exception as e:
+            # the working tree does not import / its parser tables cannot be generated from its grammar:
+            # nothing this property relies on can hold
+            ctx = core.Ctx(prop, tier, seed)
+            msg = 'the working tree cannot be imported or its parser tables cannot be regenerated from ' \
+                  'the grammar: %s: %s' % (type(e).__name__, e)
+            v = dict(sig='%s:build' % prop.lower(), case=dict(kind='build'), message=msg, expected='importable packages '
+                     'and a parser generated from the grammar', observed=traceback.format_exc()[-1500:], unit_test=None)
+            if args.replay:
+                print(msg)
+                return 1
+            path = core.write_replay(prop, v)
+            print('VIOLATION property=%s replay=%s' % (prop, path))
+            print('  sig: %s' % v['sig'])
+            print('  %s' % msg)
+            return 1
         ctx = core.Ctx(prop, tier, seed)
         ctx.budget_s = getattr(mod, 'BUDGET_S', {}).get(tier)
         if args.replay:
